@@ -295,10 +295,26 @@ def deltaSince (since : Option Nat) (mark : Option (Nat × Nat)) : Option Nat :=
     | none => some w.1
     | some t => if t < w.1 then some w.1 else some t
 
-/-- The delta query of `SHOW n`: spec and zone guard. -/
+/-- The mark the delta row filter (and the zone guard) of a SHOW compares against
+(`DeltaRefresher::new`: `sink.high_water_mark()`): the **manifest's** mark, which advances with
+every appended frame — not the catalog entry's, which is rewritten only at the very end of a
+completed SHOW (`persist_outcome`, after the response was flushed) and lags behind after a SHOW
+whose client went away or whose process died in between. The alternative branch (entry's mark,
+the sink's only when the entry has none) is what the source must NOT do; which branch is taken is
+read off the source by `tools/consts/C14.py`. -/
+def catalogFirstMark (e : Entry) : Nat × Nat :=
+  match e.mark with
+  | some m => if isZero m then sinkMark e.frames else m
+  | none => sinkMark e.frames
+
+def filterMark (e : Entry) : Nat × Nat :=
+  if Snel.Gen.C14.deltaFilterFromSink then sinkMark e.frames else catalogFirstMark e
+
+/-- The delta query of `SHOW n`: spec (SINCE from the **catalog** mark, `build_delta_command`) and
+zone guard (from the filter mark). -/
 def deltaQuery (s : Store) (e : Entry) : List Ev :=
   runQuery s { e.q with since := deltaSince e.q.since e.mark }
-    (some (e.createdAt, some (sinkMark e.frames).1))
+    (some (e.createdAt, some (filterMark e).1))
 
 /-- `WatermarkDeduplicator::filter` on every batch, empty results dropped. -/
 def keptBatches (w0 : Nat × Nat) (sched : List (List Ev)) : List (List Ev) :=
@@ -311,16 +327,27 @@ def nextMark (old : Option (Nat × Nat)) (w0 hw : Nat × Nat) : Option (Nat × N
 /-- SHOW n, the delta query delivering `sched`. Returns the new state and the response rows
 (`none`: unknown name, error status). -/
 def Entry.afterShow (e : Entry) (sched : List (List Ev)) : Entry :=
-  let w0 := sinkMark e.frames
+  let w0 := filterMark e
   let frames' := e.frames ++ keptBatches w0 sched
   { e with frames := frames', mark := nextMark e.mark w0 (sinkMark frames') }
+
+/-- A SHOW that stored its delta frames and never reached the catalog update (the client went
+away: the final flush of the response failed; or the process died and was restarted): the
+manifest has the new frames, the catalog entry is what it was. -/
+def Entry.afterCut (e : Entry) (sched : List (List Ev)) : Entry :=
+  { e with frames := e.frames ++ keptBatches (filterMark e) sched }
+
+def showCut (s : St) (n : Nat) (sched : List (List Ev)) : St :=
+  match s.cat n with
+  | none => s
+  | some e => { s with cat := setCat s.cat n (e.afterCut sched) }
 
 def showM (s : St) (n : Nat) (sched : List (List Ev)) : St × Option (List Ev) :=
   match s.cat n with
   | none => (s, none)
   | some e =>
     ({ s with cat := setCat s.cat n (e.afterShow sched) },
-      some (e.frames.flatten ++ (keptBatches (sinkMark e.frames) sched).flatten))
+      some (e.frames.flatten ++ (keptBatches (filterMark e) sched).flatten))
 
 /-- The batches a SHOW receives are a split of its delta query's result — run behind the
 AwaitFlush barrier, i.e. on the store with every flush window closed. -/
@@ -347,12 +374,15 @@ inductive Op
   | relayout (st : Store)
   | remember (n : Nat) (q : Spec) (now : Nat) (sched : List (List Ev))
   | showM (n : Nat) (sched : List (List Ev))
+  /-- an interrupted SHOW: frames stored, catalog entry not rewritten, no response -/
+  | showCut (n : Nat) (sched : List (List Ev))
 
 def step (s : St) : Op → St
   | .store e => { s with store := { s.store with mem := s.store.mem ++ [e] } }
   | .relayout st => { s with store := st }
   | .remember n q now sched => (remember s n q now sched).1
   | .showM n sched => (showM s n sched).1
+  | .showCut n sched => showCut s n sched
 
 def run (s : St) (ops : List Op) : St := ops.foldl step s
 
